@@ -489,6 +489,7 @@ func (c *wsConn) handleResponse(frame frame) {
 
 		chanCtx, chHnd := req.retCh()
 
+		vhook("fe.resp.prechan", c, "id", frame.ID)
 		c.chanHandlersLk.Lock()
 		c.chanHandlers[chid] = &chanHandler{cb: chHnd}
 		vhook("fe.resp.chanreg", c, "ch", chid, "id", frame.ID)
